@@ -154,7 +154,10 @@ class MPIRun(LaunchMethod):
         task_cores = td.get('cores_per_rank', 1)
         task_gpus  = td.get('gpus_per_rank', 0.)
 
-        if '_dplace' in self.name and task_cores > 1:
+        # launcher names are upper case (`MPIRUN_DPLACE`)
+        use_dplace = '_dplace' in self.name.lower()
+
+        if use_dplace and task_cores > 1:
             # dplace pinning would disallow threads to map to other cores
             raise ValueError('dplace can not place threads [%d]' % task_cores)
 
@@ -169,7 +172,7 @@ class MPIRun(LaunchMethod):
             core_list.append(slot['cores'][0])
             # FIXME: inform this proc about the GPU to be used
 
-            if '_dplace' in self.name and save_list:
+            if use_dplace and save_list:
                 assert (save_list == core_list), 'inhomog. core sets (dplace)'
 
             else:
@@ -177,7 +180,7 @@ class MPIRun(LaunchMethod):
 
         # NOTE: do not accumulate per-task settings in the launcher instance
         dplace = self._dplace
-        if '_dplace' in self.name:
+        if use_dplace:
             dplace += ' -c '
             dplace += ','.join([str(core['index']) for core in core_list])
 
